@@ -530,12 +530,27 @@ func c02CutAtTested(p *Prog, r *Report, fn *ssa.Function, c *PolyCtx, tested *ss
 			r.OK("C02.R3", key, p.InstrPos(call), "the index is tested again against the end of the data before the cut")
 		case got.Equal(want):
 			r.OK("C02.R3", key, p.InstrPos(call), "same loop variable, unchanged between the test and the cut")
-		case stripConv(call.Call.Args[1]) != nil && isPhiInLoopOf(stripConv(call.Call.Args[1]), tested):
+		case stripConv(call.Call.Args[1]) != nil && (isPhiInLoopOf(stripConv(call.Call.Args[1]), tested) || derivedFromTested(stripConv(call.Call.Args[1]), tested)):
 			r.Bad("C02.R3", key, p.InstrPos(call), "the record is cut at an index that was changed after the scan-end test (another merge of the loop variable): nothing shows that a whole record lies before the end of the data there, so the record can run past the samples received")
 		default:
 			r.Unk("C02.R3", key, p.InstrPos(call), "the cut index "+got.String()+" is not the loop variable the scan-end test bounded; not decided whether it is in range")
 		}
 	})
+}
+
+// derivedFromTested: v is the result of a call that was handed the tested loop variable (the index
+// moved on by a helper or closure after the scan-end test).
+func derivedFromTested(v ssa.Value, tested *ssa.Phi) bool {
+	call, ok := v.(*ssa.Call)
+	if !ok {
+		return false
+	}
+	for _, a := range call.Call.Args {
+		if stripConv(a) == ssa.Value(tested) {
+			return true
+		}
+	}
+	return false
 }
 
 // isPhiInLoopOf: v is a phi other than `tested`, fed (directly or through phis) by it.
